@@ -1,0 +1,31 @@
+//go:build verif
+
+package message
+
+// VerifConsts exports the format constants of this package, evaluated by the
+// compiler, for the verification translator.
+func VerifConsts() map[string]any {
+	h2, _ := V2.newHeader()
+	h1, _ := V1.newHeader()
+	return map[string]any{
+		"msg.magic":              append([]byte(nil), magic[:]...),
+		"msg.headerSize":         int64(HeaderSize),
+		"msg.maxMessageBodySize": int64(maxMessageBodySize),
+		"msg.v1Marker":           int64(V1.marker),
+		"msg.v2Marker":           int64(V2.marker),
+		"msg.v1HeaderSize":       int64(v1HeaderSize),
+		"msg.v2HeaderSize":       int64(v2HeaderSize),
+		"msg.trailerSize":        int64(trailerSize),
+		"msg.fixedSize":          int64(fixedSize),
+		"msg.headerPayloadSize":  int64(headerPayloadSize),
+		"msg.trailerMagic":       append([]byte(nil), trailerMagicData...),
+		"msg.v2FileHeader":       h2,
+		"msg.v1FileHeader":       h1,
+		"msg.crcPoly":            int64(0x82f63b78), // reversed Castagnoli; checked against crc32cTable[128]
+		"msg.crcTable128":        int64(crc32cTable[128]),
+		"msg.crcTable1":          int64(crc32cTable[1]),
+		"msg.offsetOldest":       OffsetOldest,
+		"msg.offsetNewest":       OffsetNewest,
+		"msg.offsetInvalid":      OffsetInvalid,
+	}
+}
